@@ -403,7 +403,7 @@ Qed.
 
 Lemma good_leave p n c : good c (leave_scope p n c).
 Proof. eapply good_frame with (new := []); try reflexivity. constructor. Qed.
-Lemma good_install n s c : good c (install_segment n s c).
+Lemma good_install n o c : good c (install_segment n o c).
 Proof. eapply good_frame with (new := [_]); try reflexivity. constructor; [exact I|constructor]. Qed.
 Lemma good_setpc pc c : good c (set_current_pc pc c).
 Proof.
@@ -475,8 +475,8 @@ Proof.
       destruct (undefined c1) as [|u us] eqn:EU.
       * cbn [andb] in H.
         destruct (negb (negb (Nat.eqb (node_count (symbols c1)) (node_count (symbols c))))) eqn:EN.
-        -- inversion H; subst cf. exists c. repeat split; auto.
-           rewrite negb_involutive in EN. apply Nat.eqb_eq in EN. exact EN.
+        -- inversion H; subst cf. rewrite negb_involutive in EN. apply Nat.eqb_eq in EN.
+           exact (ex_intro _ c (conj T (conj V (conj FS (conj ER (conj EU EN)))))).
         -- destruct ((negb unknown_needs_nonempty || negb true) && set_eqb [] pu); [discriminate|].
            apply IH in H; auto using fresh_next_pass.
       * cbn [andb] in H. destruct ((negb unknown_needs_nonempty || negb false) && set_eqb (u :: us) pu); [discriminate|].
